@@ -858,6 +858,7 @@ func (ds *Dataset) updateDataset(newItemCount int64, entities []*Entity, holdsCo
 				}
 				dsInterface, found := ds.store.datasets.Load(dsEntity.Properties[dsInfo.NameKey])
 				if found {
+					verifhook.Point(ds.store.database, "updateDataset.coreBeforeRecord")
 					dataset := dsInterface.(*Dataset)
 					dataset.PublicNamespaces = newNamespacesArray
 					jsonData, err := json.Marshal(dataset)
